@@ -94,13 +94,18 @@ def pipe_address(prefix, suffix, node, pipe, multicast):
     byte 1 = suffix[level of node]"""
     lv = level(node)
     uni = (not multicast) or pipe != 0 or node == 0
-    b0 = ite(uni, suffix[pipe], prefix)
-    d1 = ite(lv >= 1, suffix[digit(node, 0)], prefix)
-    b1 = ite(uni, d1, suffix[lv])
-    b2 = ite(uni and lv >= 2, suffix[digit(node, 1)], prefix)
-    b3 = ite(uni and lv >= 3, suffix[digit(node, 2)], prefix)
-    b4 = ite(uni and lv >= 4, suffix[digit(node, 3)], prefix)
+    b0 = ite(uni, _sx(suffix, pipe), prefix)
+    d1 = ite(lv >= 1, _sx(suffix, digit(node, 0)), prefix)
+    b1 = ite(uni, d1, _sx(suffix, lv))
+    b2 = ite(uni and lv >= 2, _sx(suffix, digit(node, 1)), prefix)
+    b3 = ite(uni and lv >= 3, _sx(suffix, digit(node, 2)), prefix)
+    b4 = ite(uni and lv >= 4, _sx(suffix, digit(node, 3)), prefix)
     return bytes([b0, b1, b2, b3, b4])
+
+
+def _sx(suffix, d):
+    """suffix[d]; total (digits 6, 7 never occur in a valid address)"""
+    return suffix[ite(0 <= d and d <= 5, d, 0)]
 
 
 def distinct_bytes(prefix, suffix):
